@@ -14,7 +14,7 @@ ap.add_argument("--patch")
 ap.add_argument("--scale", default="1")
 ap.add_argument("--count", type=int, default=1, help="which occurrence (1-based), 0 = all")
 ap.add_argument("edits", nargs="*")
-a = ap.parse_args()
+a = ap.parse_intermixed_args()
 wt = tempfile.mkdtemp(prefix="vfm-", dir="/var/tmp")
 os.rmdir(wt)
 subprocess.check_call(["git", "-C", "/repo", "worktree", "add", "--detach", "-q", wt])
